@@ -88,7 +88,19 @@ fn rkey(r: &ReadRow) -> String {
     format!("{}.{}", r.view, r.accessor)
 }
 
-pub const N_PRIORS: usize = 8;
+pub const N_PRIORS: usize = 14;
+
+/// Field names with a documented alias, per view (DEP-3: "Author or From", "Description or Subject").  A header may carry
+/// either name - or both - for each of them, in any combination.
+pub const ALIASES: &[(&str, &str, &str)] = &[("dep3::PatchHeader", "Author", "From"), ("dep3::PatchHeader", "Description", "Subject")];
+pub fn alias_of(view: &str, field: &str) -> Option<&'static str> {
+    ALIASES.iter().find(|(v, f, _)| *v == view && *f == field).map(|(_, _, a)| *a)
+}
+/// the base paragraph with its first field under its alias name (None when that field has no alias)
+fn alt_base(r: &Row) -> Option<String> {
+    let (name, rest) = r.base.split_once(':')?;
+    alias_of(r.view, name).map(|a| format!("{}:{}", a, rest))
+}
 
 /// The prior documents for a row; None when the variant does not apply.
 pub fn prior_doc(r: &Row, prior: usize) -> Option<String> {
@@ -109,6 +121,17 @@ pub fn prior_doc(r: &Row, prior: usize) -> Option<String> {
         6 => Some(format!("{}{}X-Other: keep", r.base, f)),
         // ... and the accessor's own field last
         7 => Some(format!("{}{}", r.base, f).trim_end_matches('\n').to_string()),
+        // alias names: the accessor's field under its alias name; under both names (either order)
+        8 => alias_of(r.view, r.field).map(|a| format!("{}{}", r.base, f.replacen(r.field, a, 1))),
+        9 => alias_of(r.view, r.field).map(|a| format!("{}{}{}", r.base, f, f.replacen(r.field, a, 1).replacen(r.prior_raw.split('\n').next().unwrap_or(""), "other", 1))),
+        10 => alias_of(r.view, r.field).map(|a| format!("{}{}{}", r.base, f.replacen(r.field, a, 1).replacen(r.prior_raw.split('\n').next().unwrap_or(""), "other", 1), f)),
+        // another field of the view under ITS alias name: with the accessor's field absent, present, present as alias
+        11 => alt_base(r),
+        12 => alt_base(r).map(|b| format!("{}{}", b, f)),
+        13 => match (alt_base(r), alias_of(r.view, r.field)) {
+            (Some(b), Some(a)) => Some(format!("{}{}", b, f.replacen(r.field, a, 1))),
+            _ => None,
+        },
         _ => None,
     }
 }
@@ -161,7 +184,8 @@ fn check_set(r: &Row, prior: usize, vi: usize) -> Vec<Viol> {
     };
     // which paragraph holds the view: the one containing the base paragraph's first field
     let base_first = r.base.split(':').next().unwrap_or("").to_string();
-    let pi = before_c.iter().position(|p| p.iter().any(|(k, _)| *k == base_first));
+    let base_alias = alias_of(r.view, &base_first);
+    let pi = before_c.iter().position(|p| p.iter().any(|(k, _)| *k == base_first || Some(k.as_str()) == base_alias));
     let Some(pi) = pi else {
         out.push(viol("harness", ctx("view paragraph not found in the prior document")));
         return out;
@@ -171,16 +195,20 @@ fn check_set(r: &Row, prior: usize, vi: usize) -> Vec<Viol> {
         return out;
     }
     // exactly one field of the documented name (none after clearing)
-    let n_named = after_c[pi].iter().filter(|(k, _)| k == r.field).count();
+    // (a field with a documented alias: under either name; a header that carried both names before is not counted)
+    let own_alias = alias_of(r.view, r.field);
+    let is_own = |k: &String| k == r.field || Some(k.as_str()) == own_alias;
+    let n_named = after_c[pi].iter().filter(|(k, _)| is_own(k)).count();
+    let n_before = before_c[pi].iter().filter(|(k, _)| is_own(k)).count();
     let want_n = if clear { 0 } else { 1 };
-    if n_named != want_n {
-        out.push(viol("stored-in-one-field-of-that-name", ctx(&format!("{} field(s) named {:?} in the paragraph, expected {}", n_named, r.field, want_n))));
+    if n_named != want_n && n_before <= 1 {
+        out.push(viol("stored-in-one-field-of-that-name", ctx(&format!("{} field(s) named {:?} (or its documented alias) in the paragraph, expected {}", n_named, r.field, want_n))));
     }
     // every other field, every other paragraph and every comment unchanged
     for (i, (b, a)) in before_c.iter().zip(after_c.iter()).enumerate() {
         let strip = |p: &Vec<(String, String)>| -> Vec<(String, String)> {
             if i == pi {
-                p.iter().filter(|(k, _)| k != r.field).cloned().collect()
+                p.iter().filter(|(k, _)| !is_own(k)).cloned().collect()
             } else {
                 p.clone()
             }
@@ -333,7 +361,7 @@ impl Prop for C15 {
         "exploration"
     }
     fn rule(&self, _t: Tier) -> String {
-        "full product of (accessor pair) x (every value of its menu, plus clearing where supported) x (8 prior states: field absent; present with another value; present with comment lines around and another field after; other fields before and after; inside a two-paragraph document after / before a paragraph of another kind; document without final newline with another field / with the accessor's own field last); per view every ordered pair of setters applied in sequence (the text printed after the first is re-read for the second); per view every ordered pair applied to ONE live view without re-reading, also followed by clearing or re-setting the first; every (getter, raw text) row of the reading table; non-trivial = every case".into()
+        "full product of (accessor pair) x (every value of its menu, plus clearing where supported) x (8 prior states: field absent; present with another value; present with comment lines around and another field after; other fields before and after; inside a two-paragraph document after / before a paragraph of another kind; document without final newline with another field / with the accessor's own field last; for fields with a documented alias name (DEP-3 Author/From, Description/Subject) also: the field under its alias, under both names in either order, and another field of the view under its alias with the accessor's field absent / present / present as alias); per view every ordered pair of setters applied in sequence (the text printed after the first is re-read for the second); per view every ordered pair applied to ONE live view without re-reading, also followed by clearing or re-setting the first; every (getter, raw text) row of the reading table; non-trivial = every case".into()
     }
     fn bounds(&self, _t: Tier) -> Value {
         let rs = rows();
